@@ -19,6 +19,7 @@ import (
 	"github.com/jsightapi/jsight-schema-go-library/rules/enum"
 
 	"verif/internal/lib"
+	"verif/internal/mon"
 )
 
 type c11Root struct {
@@ -79,6 +80,9 @@ type c11Op struct {
 	Op  string `json:"op"`
 	Doc int    `json:"doc,omitempty"`
 	Pre bool   `json:"doc_checked_first,omitempty"`
+	// Pooled: Validate runs on the pooled Document OBJECT itself (lexemes may have been read
+	// from it, other schemas may have validated it) instead of a new one.
+	Pooled bool `json:"pooled_doc,omitempty"`
 }
 
 func (o c11Op) String() string {
@@ -90,6 +94,9 @@ func (o c11Op) String() string {
 		s += "(doc " + strconv.Itoa(o.Doc)
 		if o.Pre {
 			s += ", checked first"
+		}
+		if o.Pooled {
+			s += ", the pooled Document object"
 		}
 		s += ")"
 	}
@@ -278,7 +285,9 @@ func c11Err(err error) string {
 	if errors.As(err, &f) {
 		file = f.Filename()
 	}
-	return fmt.Sprintf("error(code=%d pos=%d file=%q type=%s)", o.Code, o.Pos, file, o.ErrType)
+	// the text of the error belongs to the error value: it is compared with the text the same
+	// operation gives on fresh objects / under another map order (never with a text of ours)
+	return fmt.Sprintf("error(code=%d pos=%d file=%q type=%s text#%08x)", o.Code, o.Pos, file, o.ErrType, uint32(mon.HashString(c07SafeSprint(err))))
 }
 
 func c11ErrText(err error) func() string {
@@ -378,7 +387,7 @@ func (o *c11Objs) c11Legal(op c11Op) bool {
 }
 
 // c11Exec runs one operation and returns the comparable rendering of its result plus the values
-// it handed out. Never compares message text.
+// it handed out. The error text enters as a hash (library against library, never against a text of ours).
 func c11Exec(o *c11Objs, op c11Op) (res string, handed []c11Handed) {
 	pan := c11Guard(op.String(), func() {
 		res, handed = c11ExecRaw(o, op)
@@ -434,6 +443,15 @@ func c11ExecRaw(o *c11Objs, op c11Op) (res string, handed []c11Handed) {
 			return fmt.Sprintf("%s used=%q", c11Err(err), u), handed
 		case "Validate":
 			d := c11NewDoc(o.pool.Docs[op.Doc])
+			if op.Pooled {
+				// where the cursor stands afterwards is Validate's business: further reads of
+				// this object are not judged
+				if o.docs[op.Doc] == nil { // the reference run builds only what the operation names
+					o.docs[op.Doc] = c11NewDoc(o.pool.Docs[op.Doc])
+				}
+				d = o.docs[op.Doc]
+				o.used[op.Doc] = true
+			}
 			if op.Pre {
 				_ = d.Check()
 				_, _ = d.Len()
@@ -557,6 +575,7 @@ func c11AllOps(p *c11Pool, refs []c11Ref) []c11Op {
 				}
 				if len(p.Docs) > 0 {
 					out = append(out, c11Op{On: r, Op: op, Doc: 0, Pre: true})
+					out = append(out, c11Op{On: r, Op: op, Doc: 0, Pooled: true})
 				}
 			}
 		case "doc":
